@@ -19,7 +19,8 @@ LEVEL_TEXT = ("A state is a script; a transition appends one statement. Every sc
               "is a harness error."
               " The alphabet also holds a Hive table with key=value properties next to the \"input.regex\" statement, statements with a backslash-escaped quote, and a same-named table in another schema (ALTER/INDEX statements that name the bare table must stay with it)."
               " A table may be defined twice: an ALTER / INDEX belongs to the nearest preceding definition and later statements never change earlier entities."
-              ' Defect hunt: a second Hive RegexSerDe table with its own "input.regex", unsupported ALTER TABLE forms that share a prefix with supported ones (DEFAULT CHARACTER SET, OWNER TO, DISABLE TRIGGER).')
+              ' Defect hunt: a second Hive RegexSerDe table with its own "input.regex", unsupported ALTER TABLE forms that share a prefix with supported ones (DEFAULT CHARACTER SET, OWNER TO, DISABLE TRIGGER).'
+              ' Wave 6: a temp-table-style name (#a1) next to a1; an unsupported ALTER TABLE .. SET SERDEPROPERTIES carrying its own "input.regex".')
 LEVEL_NOTE = ("The library has no incremental API, so every history is executed from scratch (no pruning by state). Depth bound 3 rests "
               "on carriers being reset per statement (a leak reaches at most the next statement).")
 RULE = ("case = sequence of statements from the alphabet (or a pair of corpus scripts); expected = concatenation of stand-alone results "
